@@ -211,13 +211,25 @@ TryNextBlock:
 			p.Header[lastKey] += string(line)
 			continue
 		}
-		line = bytes.TrimSpace(line)
+		if nextIsContinuation {
+			// The line goes on in the next fragment: whitespace at the end of this
+			// fragment is part of the value.
+			line = bytes.TrimLeft(line, " \t\r\n")
+		} else {
+			line = bytes.TrimSpace(line)
+		}
 		if len(line) == 0 {
 			break
 		}
 
 		i := bytes.Index(line, []byte(": "))
 		if i == -1 {
+			if !nextIsContinuation && line[len(line)-1] == ':' {
+				// "Key: " with an empty value (the trailing space was trimmed).
+				lastKey = string(line[:len(line)-1])
+				p.Header[lastKey] = ""
+				continue
+			}
 			goto TryNextBlock
 		}
 		lastKey = string(line[:i])
